@@ -648,7 +648,13 @@ func (c *compiler) arrayOperator(l interface{}, r interface{}, op string) (inter
 			err = fmt.Errorf("cannot append '%v' (untyped %s constant) as %s value in assignment", r, t, elemType)
 		}
 		if err == nil {
-			return reflect.Append(reflect.ValueOf(l), reflect.ValueOf(r)).Interface(), nil
+			// the result is a new array: appending in place would write into the
+			// spare capacity of l, which other values (and other executions) share
+			lv := reflect.ValueOf(l)
+			res := reflect.MakeSlice(lv.Type(), lv.Len(), lv.Len()+1)
+			reflect.Copy(res, lv)
+
+			return reflect.Append(res, reflect.ValueOf(r)).Interface(), nil
 		}
 	default:
 		err = fmt.Errorf("unkown operator (%s) on %T and %T ", op, l, r)
